@@ -50,6 +50,14 @@ def mutate_text(src, rng, others):
                 last = m.end()
         out.append(src[last:])
         return "".join(out)
+    if k == 0 and src and rng.random() < 0.5:            # a slip in a dotted name or divert target: doubled / trailing / leading dot
+        import re
+        names = [m for m in re.finditer(r"[A-Za-z_][A-Za-z_0-9]*(\.[A-Za-z_][A-Za-z_0-9]*)*", src)]
+        if names:
+            m = rng.choice(names)
+            w = m.group(0)
+            w2 = rng.choice([w.replace(".", "..", 1) if "." in w else w + ".", w + ".", "." + w, w + ".."])
+            return src[:m.start()] + w2 + src[m.end():]
     if k == 0 and src:                                   # delete a span
         i = rng.randrange(len(src)); j = min(len(src), i + rng.choice([1, 1, 2, 5, 20]))
         return src[:i] + src[j:]
@@ -88,9 +96,14 @@ def soup(rng):
 
 
 def compile_once(path, release=False):
-    try:
-        r = subprocess.run([common.rt_bin((), release), "compile", path], capture_output=True, timeout=20)
-    except subprocess.TimeoutExpired:
+    r = None
+    for limit in (20, 240):     # (a second, much longer try: a loaded machine must not look like a hang)
+        try:
+            r = subprocess.run([common.rt_bin((), release), "compile", path], capture_output=True, timeout=limit)
+            break
+        except subprocess.TimeoutExpired:
+            r = None
+    if r is None:
         return "timeout", b""
     if r.returncode != 0 and not r.stdout:
         return "abort", (r.stderr or b"")[-300:]
